@@ -17,7 +17,7 @@
      _multi_device._check_device_configurations.
    The model has a main graph, one function and arbitrarily nested subgraph bodies (scinfo): name resolution
    on deserialization goes through the scope stack (resolve), the cloner enters a node's outputs into its
-   value map after the node's bodies (pending), the IR-version gate is not applied inside bodies (rt_keep).
+   value map after the node's bodies (pending), the IR-version gate applies at every depth (rt_keep).
    Executable definitions only. *)
 From Coq Require Import ZArith List Bool Lia.
 From IRV Require Import Base.Exn.
@@ -410,13 +410,10 @@ Fixpoint rt_dcs (h : state) (cfgs : list cfgobj) (sc : Z) (dcs : list ndc) (acc 
 
 Definition MULTI_DEVICE_SUPPORTED_VERSION := 11.
 
-(* which nodes get their device configurations serialized: at IR >= 11 all of them.  Below 11 the gate
-   (serde._serialize_node_multi_device_into, model_ir_version) drops them for the nodes of the main graph and of
-   functions — but serialize_graph_into is called for subgraph bodies WITHOUT the model's IR version, so nodes
-   inside bodies keep theirs (observed behaviour of the code that exists; the model configurations themselves
-   are dropped, so those references come back as placeholders). *)
-Definition rt_keep (h : state) (n : Z) : bool :=
-  (MULTI_DEVICE_SUPPORTED_VERSION <=? s_ir h) || (2 <=? node_scope h n).
+(* which nodes get their device configurations serialized: at IR >= 11 all of them, below 11 none — the gate
+   (serde._serialize_node_multi_device_into, model_ir_version) is applied at every nesting depth
+   (serialize_graph_into receives the model's IR version for GRAPH/GRAPHS attributes too). *)
+Definition rt_keep (h : state) (n : Z) : bool := MULTI_DEVICE_SUPPORTED_VERSION <=? s_ir h.
 
 Definition ser_ok (h : state) : bool :=
   forallb (fun p => negb (rt_keep h (fst p)) || forallb (ser_dc_ok h) (n_dc (snd p))) (s_nodes h).
